@@ -327,6 +327,11 @@ impl EndOfDataV0 {
         ensures r@ == wire_end_of_data_v0(*old(self)), final(r)@ == wire_end_of_data_v0(*final(self)),
     //@/spec
     //@end
+    //@fn src/rtr/pdu.rs :: impl $type :: size
+    //@spec
+        ensures r == 12,
+    //@/spec
+    //@end
     //@fn src/rtr/pdu.rs :: impl $type :: read_payload
     //@sigsub R6 "<Sock: AsyncRead + Unpin>" ""
     //@sub R11 "$type" "EndOfDataV0"
@@ -349,6 +354,11 @@ impl EndOfDataV1 {
     //@fn src/rtr/pdu.rs :: impl AsMut<[u8]> for $type :: as_mut external_body
     //@spec
         ensures r@ == wire_end_of_data_v1(*old(self)), final(r)@ == wire_end_of_data_v1(*final(self)),
+    //@/spec
+    //@end
+    //@fn src/rtr/pdu.rs :: impl $type :: size
+    //@spec
+        ensures r == 24,
     //@/spec
     //@end
     //@fn src/rtr/pdu.rs :: impl $type :: read_payload
